@@ -15,7 +15,9 @@
 From Coq Require Import List NArith ZArith Bool String.
 Import ListNotations.
 From LV Require Import Model.Base Model.Template Model.Eval Model.Derived Model.EvalRun
-  Proofs.BaseProofs Proofs.EvalProofs Proofs.TraceProofs Proofs.C12Proofs.
+  Proofs.BaseProofs Proofs.EvalProofs Proofs.TraceProofs Proofs.CoveredDefs Proofs.CacheSim Proofs.CoveredProofs
+  Proofs.C12Proofs Proofs.C12History.
+Close Scope string_scope.
 Open Scope list_scope.
 
 Section C12.
@@ -29,6 +31,7 @@ Section C12.
   Notation eval := (eval S mem_find mem_store cfg ucall rfuel site_ok).
   Notation validate := (validate S mem_find mem_store cfg ucall rfuel site_ok).
   Notation keys := (keys S mem_find mem_store cfg ucall rfuel site_ok).
+  Notation explain := (explain S mem_find mem_store cfg ucall rfuel site_ok).
   Notation fingerprint := (fingerprint S mem_find mem_store cfg ucall rfuel site_ok).
   Notation strict_pos := (strict_pos S mem_find mem_store cfg ucall rfuel site_ok).
   Notation strict_path := (strict_path S mem_find mem_store cfg ucall rfuel site_ok).
@@ -36,8 +39,7 @@ Section C12.
   Notation conds_false := (conds_false S mem_find mem_store cfg ucall rfuel site_ok).
   Notation elems_ok := (elems_ok S mem_find mem_store cfg ucall rfuel site_ok).
   Notation attempt := (attempt S mem_find mem_store cfg ucall rfuel site_ok).
-  Notation stored_successes := (stored_successes S mem_find mem_store cfg ucall rfuel site_ok).
-  Notation produced := (produced S mem_find mem_store cfg ucall rfuel site_ok).
+  Notation site_run := (site_run S mem_find mem_store cfg ucall rfuel site_ok).
 
   (** ** 1. Every failure surfaces as an EvaluationError, with the original cause *)
 
@@ -165,49 +167,68 @@ Section C12.
     eval (elist (pre ++ x :: post)) o s = (Err c true, s2, l1 ++ l2).
   Proof. exact (consumer_gets_the_element_failure S mem_find mem_store cfg ucall rfuel site_ok). Qed.
 
-  (** ** 3. A failed evaluation stores nothing *)
+  (** ** 3. A failed evaluation stores nothing; what is stored is the value its own cache site
+      just returned *)
 
-  (** the ONLY stores any run performs — of evaluate, validate or keys, failing or not — are of
-      the value that the evaluation of a cached expression just RETURNED, at that expression's
-      fingerprint.  [R] is any reflexive-transitive relation between stores that such stores
-      respect (into the caches [allowed]); then every run of an expression mentioning only those
-      caches relates its initial to its final store. *)
-  Theorem C12_only_successes_are_stored :
-    forall (R : S -> S -> Prop),
-    (forall s, R s s) -> (forall a b c, R a b -> R b c -> R a c) ->
-    forall allowed : N -> bool,
-    (forall cid e o s1 v s2 l1 f s3 lf,
-       allowed cid = true ->
-       eval e o s1 = (Ok v, s2, l1) -> fingerprint e o s2 = (Ok f, s3, lf) ->
-       R s3 (mem_store cid f (exhaust v) s3)) ->
-    forall e, caches_allowed allowed e = true ->
-    forall o,
-      (forall s r s' l, eval e o s = (r, s', l) -> R s s') /\
-      (forall s r s' l, validate e o s = (r, s', l) -> R s s') /\
-      (forall s r s' l, keys e o s = (r, s', l) -> R s s').
-  Proof. exact (only_successes_are_stored S mem_find mem_store cfg ucall rfuel site_ok). Qed.
+  (** THE PATH OF STORES.  [site_run sl a b] (Proofs/C12Proofs.v) is the inductive relation
+      generated by reflexivity, transitivity and ONE rule that changes the store:
+        [In (cid, e) sl], [eval e o s1 = (Ok v, s2, l1)], [fingerprint e o s2 = (Ok f, s3, lf)]
+        (and the two sub-runs are [site_run]s themselves)
+        give [site_run sl s1 (mem_store cid f (exhaust v) s3)]
+      — the evaluation of the cached expression [e] of a cache site [(cid, e)], started in [s1]
+      under some dictionary [o], RETURNED [v]; Cached computed the fingerprint [f] of [e] under
+      that same [o]; then [v] was stored at [f] in that site's cache [cid].  The segment spans
+      the successful sub-evaluation, so that sub-evaluation is part of the run.
 
-  (** in particular with the smallest such relation, for every expression *)
-  Theorem C12_every_store_is_of_a_success : forall e o,
-    (forall s r s' l, eval e o s = (r, s', l) -> stored_successes s s') /\
-    (forall s r s' l, validate e o s = (r, s', l) -> stored_successes s s') /\
-    (forall s r s' l, keys e o s = (r, s', l) -> stored_successes s s').
-  Proof. exact (every_store_is_of_a_success S mem_find mem_store cfg ucall rfuel site_ok). Qed.
+      THE THEOREM: every run — evaluate, validate, keys or explain; successful or FAILED — of every
+      expression [e_top], under every dictionary, from every store, goes through the store only
+      along a [site_run] of [e_top]'s own cache sites ([sites_of e_top]: every
+      [ECached (CMem cid) e] occurring in it).  A failed sub-evaluation is followed by no store;
+      there is no store that is not of the value the site's own expression just returned, at the
+      fingerprint of that expression under the dictionary that reached the site. *)
+  Theorem C12_every_run_is_a_site_run : forall e_top o,
+    (forall s r s' l, eval e_top o s = (r, s', l) -> site_run (sites_of e_top) s s') /\
+    (forall s r s' l, validate e_top o s = (r, s', l) -> site_run (sites_of e_top) s s') /\
+    (forall s r s' l, keys e_top o s = (r, s', l) -> site_run (sites_of e_top) s s') /\
+    (forall s r s' l, explain e_top o s = (r, s', l) -> site_run (sites_of e_top) s s').
+  Proof. exact (every_run_is_a_site_run S mem_find mem_store cfg ucall rfuel site_ok). Qed.
 
-  (** A FAILED EVALUATION IS FORGOTTEN: after it, every entry of every cache was there before
-      or is a value that a successful evaluation of a cached expression returned during the run
-      (for every store in which a lookup after a store finds the stored value or what was there) *)
-  Theorem C12_failure_is_forgotten :
+  (** ENTRY BY ENTRY (for every store in which a lookup after a store finds exactly the stored
+      entry or what was there before; proved of the real store below): whatever is in the store
+      after a run — successful or failed — and was not there before, was put there by the
+      success of ITS OWN cache site during this run: [cid] is the cache of a site [(cid, e)] of
+      [e_top]; from a store [sa] the run reached, that very [e] was evaluated under a dictionary
+      [o'] and returned [v]; [f] is the fingerprint Cached then computed for [e] under [o']; [w]
+      is [v] (generators exhausted, as every reader sees them) *)
+  Theorem C12_new_entries_are_site_successes :
     (forall c f v s c' f' w,
-       mem_find c' f' (mem_store c f v s) = Some w -> w = v \/ mem_find c' f' s = Some w) ->
-    forall e o s c ee s' l,
-    eval e o s = (Err c ee, s', l) ->
-    forall cid f w, mem_find cid f s' = Some w -> mem_find cid f s = Some w \/ produced w.
-  Proof. exact (failure_is_forgotten S mem_find mem_store cfg ucall rfuel site_ok). Qed.
+       mem_find c' f' (mem_store c f v s) = Some w ->
+       (c' = c /\ f' = f /\ w = v) \/ mem_find c' f' s = Some w) ->
+    forall e_top o s r s' l, eval e_top o s = (r, s', l) ->
+    forall cid f w, mem_find cid f s' = Some w ->
+      mem_find cid f s = Some w \/
+      exists e o' sa v sb la sc lf,
+        In (cid, e) (sites_of e_top) /\ site_run (sites_of e_top) s sa /\
+        eval e o' sa = (Ok v, sb, la) /\ fingerprint e o' sb = (Ok f, sc, lf) /\ w = exhaust v.
+  Proof.
+    exact (fun law e_top o =>
+             proj1 (new_entries_are_site_successes S mem_find mem_store cfg ucall rfuel site_ok law e_top o)).
+  Qed.
 
-  (** the failing node itself: a Cached node (cache on, miss) whose expression fails to
-      evaluate fails with THAT cause and its run performs no store into its own cache: [R] need
-      only be respected by stores into the other caches *)
+  (** the failing node itself: a Cached node (cache on, miss) whose expression fails to evaluate
+      fails with THAT cause, and the whole run went through the store along a [site_run] of the
+      sites strictly INSIDE its expression — its own site [(cid, e)] is not one of them: nothing
+      was stored for the failing node *)
+  Theorem C12_failed_cached_expr_stores_only_inner_successes : forall cid e o s f s1 l1 c ee s2 l2,
+    cache_off cfg o = false -> fingerprint e o s = (Ok f, s1, l1) -> mem_find cid f s1 = None ->
+    eval e o s1 = (Err c ee, s2, l2) ->
+    eval (ECached (CMem cid) e) o s =
+      (Err c true, s2, (dirty_evs site_ok cid e o ++ l1 ++ [EvCacheExists cid false]) ++ l2) /\
+    site_run (sites_of e) s s2 /\ ~ In (cid, e) (sites_of e).
+  Proof. exact (failed_cached_expr_stores_only_inner_successes S mem_find mem_store cfg ucall rfuel site_ok). Qed.
+
+  (** the same node, as a frame statement about cache OBJECTS: its run performs no store into its
+      own cache: [R] need only be respected by stores into the other caches ([allowed]) *)
   Theorem C12_failing_body_is_not_stored :
     forall (R : S -> S -> Prop) (allowed : N -> bool) cid e o s f s1 l1 c ee s2 l2,
     (forall s, R s s) -> (forall a b c, R a b -> R b c -> R a c) ->
@@ -236,18 +257,69 @@ Print Assumptions C12_coalesce_raw_error_propagates.
 Print Assumptions C12_coalesce_cause_partial.
 Print Assumptions C12_iter_element_failure_is_deferred.
 Print Assumptions C12_consumer_gets_the_element_failure.
-Print Assumptions C12_only_successes_are_stored.
-Print Assumptions C12_every_store_is_of_a_success.
-Print Assumptions C12_failure_is_forgotten.
+Print Assumptions C12_every_run_is_a_site_run.
+Print Assumptions C12_new_entries_are_site_successes.
+Print Assumptions C12_failed_cached_expr_stores_only_inner_successes.
 Print Assumptions C12_failing_body_is_not_stored.
 
-(** ** The real memo store (one association list per MemoryCache object, Model/EvalRun.v) *)
-Theorem C12_real_failure_is_forgotten : forall cfg ucall rfuel site_ok e o s c ee s' l,
-  eval store mem_find mem_store cfg ucall rfuel site_ok e o s = (Err c ee, s', l) ->
+(** ** The real memo store (one association list per MemoryCache object, Model/EvalRun.v), whose
+    find-after-store law is proved *)
+
+(** after ANY evaluation — successful or FAILED — of any expression [e_top] from any store [s]:
+    every entry [(cid, f, w)] of the new store that was not already in [s] belongs to a cache
+    site [ECached (CMem cid) e] occurring in [e_top]; that very [e] was evaluated during this run
+    (from a store [sa] the run reached) under a dictionary [o'] and RETURNED [v]; [w] is [v]; and
+    [f] is the fingerprint Cached computed for [e] under [o'].  So a failure is never stored, a
+    value is never stored for another expression than the one that returned it, nor at another
+    fingerprint than that of the dictionary it was computed under *)
+Theorem C12_real_stored_entry_is_its_sites_success : forall cfg ucall rfuel site_ok e_top o s r s' l,
+  eval store mem_find mem_store cfg ucall rfuel site_ok e_top o s = (r, s', l) ->
   forall cid f w, mem_find cid f s' = Some w ->
-    mem_find cid f s = Some w \/ produced store mem_find mem_store cfg ucall rfuel site_ok w.
-Proof. exact real_failure_is_forgotten. Qed.
-Print Assumptions C12_real_failure_is_forgotten.
+    mem_find cid f s = Some w \/
+    exists e o' sa v sb la sc lf,
+      In (cid, e) (sites_of e_top) /\
+      site_run store mem_find mem_store cfg ucall rfuel site_ok (sites_of e_top) s sa /\
+      eval store mem_find mem_store cfg ucall rfuel site_ok e o' sa = (Ok v, sb, la) /\
+      fingerprint store mem_find mem_store cfg ucall rfuel site_ok e o' sb = (Ok f, sc, lf) /\
+      w = exhaust v.
+Proof. exact real_stored_entry_is_its_sites_success. Qed.
+Print Assumptions C12_real_stored_entry_is_its_sites_success.
+
+(** the same of validate(), keys() and explain() (all three evaluate sub-expressions, so all can store) *)
+Theorem C12_real_new_entries_are_site_successes : forall cfg ucall rfuel site_ok e_top o,
+  (forall s r s' l, eval store mem_find mem_store cfg ucall rfuel site_ok e_top o s = (r, s', l) ->
+     forall cid f w, mem_find cid f s' = Some w ->
+       mem_find cid f s = Some w \/
+       site_success store mem_find mem_store cfg ucall rfuel site_ok (sites_of e_top) s cid f w) /\
+  (forall s r s' l, validate store mem_find mem_store cfg ucall rfuel site_ok e_top o s = (r, s', l) ->
+     forall cid f w, mem_find cid f s' = Some w ->
+       mem_find cid f s = Some w \/
+       site_success store mem_find mem_store cfg ucall rfuel site_ok (sites_of e_top) s cid f w) /\
+  (forall s r s' l, keys store mem_find mem_store cfg ucall rfuel site_ok e_top o s = (r, s', l) ->
+     forall cid f w, mem_find cid f s' = Some w ->
+       mem_find cid f s = Some w \/
+       site_success store mem_find mem_store cfg ucall rfuel site_ok (sites_of e_top) s cid f w) /\
+  (forall s r s' l, explain store mem_find mem_store cfg ucall rfuel site_ok e_top o s = (r, s', l) ->
+     forall cid f w, mem_find cid f s' = Some w ->
+       mem_find cid f s = Some w \/
+       site_success store mem_find mem_store cfg ucall rfuel site_ok (sites_of e_top) s cid f w).
+Proof. exact real_new_entries_are_site_successes. Qed.
+Print Assumptions C12_real_new_entries_are_site_successes.
+
+(** a Cached node (cache on, miss) whose expression FAILS: an entry found afterwards at the
+    node's own cache and fingerprint can only be the success of a site strictly inside its
+    expression that shares its cache object — never something stored for the failed node; when
+    no site inside shares the cache object there is no entry *)
+Theorem C12_real_failed_cached_expr_own_entry : forall cfg ucall rfuel site_ok cid e o s f s1 l1 c ee s2 l2,
+  cache_off cfg o = false ->
+  fingerprint store mem_find mem_store cfg ucall rfuel site_ok e o s = (Ok f, s1, l1) ->
+  mem_find cid f s1 = None ->
+  eval store mem_find mem_store cfg ucall rfuel site_ok e o s1 = (Err c ee, s2, l2) ->
+  (forall w, mem_find cid f s2 = Some w ->
+     site_success store mem_find mem_store cfg ucall rfuel site_ok (sites_of e) s1 cid f w) /\
+  ((forall x, ~ In (cid, x) (sites_of e)) -> mem_find cid f s2 = None).
+Proof. exact real_failed_cached_expr_own_entry. Qed.
+Print Assumptions C12_real_failed_cached_expr_own_entry.
 
 (** a Cached node whose expression fails leaves the WHOLE content of its cache as it was (no
     other node inside its expression shares its cache object) *)
@@ -264,6 +336,77 @@ Theorem C12_real_failed_cached_eval_stores_nothing :
 Proof. exact real_failed_cached_eval_stores_nothing. Qed.
 Print Assumptions C12_real_failed_cached_eval_stores_nothing.
 
+(** ** 4. … it does not change the outcome of any later evaluation, and supplying the missing
+    option afterwards succeeds.  At the level of OUTCOMES, for histories on one long-lived graph
+    with the real store, inside the hypotheses of C01's transparency theorem (Proofs/CacheSim.v):
+    [Sound s] — every entry of the initial store is correct (the empty store is: [Sound_empty]);
+    [hist_ok h] — every operation's expression is covered from the operation's dictionary
+    ([scoh]: cached expressions in [frag], every dictionary reaching a cache site [okd], one
+    expression per cache id; no Map / AllOptions) — the zones of D1 D3 D4 D9 D19 D21 D24, where a
+    SUCCESSFUL evaluation can change a later outcome, are outside. *)
+
+(** deleting (read right to left: inserting) ONE operation [p] — any method, failing or
+    succeeding — anywhere in a history leaves the answer of every other operation unchanged:
+    each equals the cache-free reference [ref_op] *)
+Theorem C12_deleting_an_operation_changes_no_other_outcome : forall u fuel cfg site_ok sites esw h1 p h2 s,
+  Sound u fuel sites esw s -> hist_ok u fuel sites esw (h1 ++ [p] ++ h2) ->
+  run_hist u fuel cfg site_ok (h1 ++ [p] ++ h2) s = map (ref_op u fuel) h1 ++ [ref_op u fuel p] ++ map (ref_op u fuel) h2 /\
+  run_hist u fuel cfg site_ok (h1 ++ h2) s = map (ref_op u fuel) h1 ++ map (ref_op u fuel) h2.
+Proof. exact deleting_an_operation_changes_no_other_outcome. Qed.
+Print Assumptions C12_deleting_an_operation_changes_no_other_outcome.
+
+(** as one equation between the two runs: the observations of the history without [p] are those
+    of the history with [p], the one of [p] taken out *)
+Theorem C12_deleting_an_operation_deletes_its_observation : forall u fuel cfg site_ok sites esw h1 p h2 s,
+  Sound u fuel sites esw s -> hist_ok u fuel sites esw (h1 ++ [p] ++ h2) ->
+  run_hist u fuel cfg site_ok (h1 ++ h2) s =
+    firstn (List.length h1) (run_hist u fuel cfg site_ok (h1 ++ [p] ++ h2) s) ++
+    skipn (Datatypes.S (List.length h1)) (run_hist u fuel cfg site_ok (h1 ++ [p] ++ h2) s).
+Proof. exact deleting_an_operation_deletes_its_observation. Qed.
+Print Assumptions C12_deleting_an_operation_deletes_its_observation.
+
+(** whatever is asked after an evaluation (failed or not) is answered the same from the store
+    the evaluation left behind as from the store before it *)
+Theorem C12_an_evaluation_changes_no_later_outcome : forall u fuel cfg site_ok sites esw e o h s,
+  Sound u fuel sites esw s -> hist_ok u fuel sites esw (HEval e o :: h) ->
+  run_hist u fuel cfg site_ok h (stC (eval store mem_find mem_store cfg u fuel site_ok e o) s) =
+  run_hist u fuel cfg site_ok h s.
+Proof. exact an_evaluation_changes_no_later_outcome. Qed.
+Print Assumptions C12_an_evaluation_changes_no_later_outcome.
+
+(** A FAILED EVALUATION, spelled out: it fails as the cache-free reference fails (same cause,
+    same EvaluationError flag), and everything after it is answered as if it had never happened *)
+Theorem C12_a_failed_evaluation_is_forgotten : forall u fuel cfg site_ok sites esw e o h s c ee,
+  Sound u fuel sites esw s -> hist_ok u fuel sites esw (HEval e o :: h) ->
+  resC (eval store mem_find mem_store cfg u fuel site_ok e o) s = Err c ee ->
+  resN (eval unit nc_find nc_store cfg_nc u fuel (fun _ _ => true) e o) = Err c ee /\
+  run_hist u fuel cfg site_ok (HEval e o :: h) s = OEval (Err c ee) :: run_hist u fuel cfg site_ok h s.
+Proof. exact a_failed_evaluation_is_forgotten. Qed.
+Print Assumptions C12_a_failed_evaluation_is_forgotten.
+
+(** SUPPLYING THE OPTION AFTERWARDS SUCCEEDS: after an evaluation under [o] (in particular one
+    that failed for a missing option) and any further operations [h], the evaluation under a
+    dictionary [o'] for which the cache-free reference evaluates to [v] returns [v] *)
+Theorem C12_supplying_the_option_afterwards_succeeds : forall u fuel cfg site_ok sites esw e o h o' v s,
+  Sound u fuel sites esw s -> hist_ok u fuel sites esw (HEval e o :: h ++ [HEval e o']) ->
+  resN (eval unit nc_find nc_store cfg_nc u fuel (fun _ _ => true) e o') = Ok v ->
+  run_hist u fuel cfg site_ok (HEval e o :: h ++ [HEval e o']) s =
+    OEval (resN (eval unit nc_find nc_store cfg_nc u fuel (fun _ _ => true) e o)) ::
+    map (ref_op u fuel) h ++ [OEval (Ok v)].
+Proof. exact supplying_the_option_afterwards_succeeds. Qed.
+Print Assumptions C12_supplying_the_option_afterwards_succeeds.
+
+(** the two evaluations alone: the first FAILED, the second — in the store the failure left
+    behind — returns [v] *)
+Theorem C12_after_a_failure_the_supplied_option_succeeds : forall u fuel cfg site_ok sites esw e o o' v s c ee,
+  Sound u fuel sites esw s -> hist_ok u fuel sites esw [HEval e o; HEval e o'] ->
+  resC (eval store mem_find mem_store cfg u fuel site_ok e o) s = Err c ee ->
+  resN (eval unit nc_find nc_store cfg_nc u fuel (fun _ _ => true) e o') = Ok v ->
+  resC (eval store mem_find mem_store cfg u fuel site_ok e o')
+       (stC (eval store mem_find mem_store cfg u fuel site_ok e o) s) = Ok v.
+Proof. exact after_a_failure_the_supplied_option_succeeds. Qed.
+Print Assumptions C12_after_a_failure_the_supplied_option_succeeds.
+
 (** ** The sentence that is FALSE of coalesce (finding D20).  "The cause chain leads to the
     original exception": a member that passes validate() and then raises at evaluation is passed
     over like any other; when the members after it fail too, the LAST member's error surfaces
@@ -276,7 +419,7 @@ Definition d20_member : expr := body 100 [EOption [SName 10] None None].
 Definition d20_last : expr := EOption [SName 17] None None.
 Definition d20_options : dict := [(SName 10, JInt 5)].
 
-Example C12_coalesce_cause_refuted :
+Theorem C12_coalesce_cause_refuted :
   exists t m1 m2 o n k,
     fst (validate_nc (ucall_of t) default_fuel m1 o) = Ok tt /\
     eval_nc (ucall_of t) default_fuel m1 o = (Err (CUser n) true, [EvRead [SName 10] true; EvCall 100 [VJ (JInt 5)]]) /\
@@ -298,6 +441,7 @@ Proof.
   eapply path_step; [apply sp_logged|].
   eapply path_step; [eapply sp_call_kwarg with (pre := []) (post := []); reflexivity|]. apply path_here.
 Qed.
+Print Assumptions C12_strict_path_exists.
 
 (** a history on one long-lived graph (real store): a failing evaluation (missing option), a
     failing one (the body raises), a succeeding one (stored), the failing one again (still
@@ -318,6 +462,77 @@ Example C12_history :
      ++ "err:user(3):T|ex50F c100(5) ## ok:t100(1)|ex50T get50T ## err:key(K10):T| ## "
      ++ "err:user(3):T|ex51F ex52F set52 get52T c100(5,0) ## ok:t100(7,0)|ex51F ex52F set52 get52T c100(7,0) set51 get51T")%string.
 Proof. vm_compute. reflexivity. Qed.
+Print Assumptions C12_history.
+
+(** the store theorems on a FAILING run that stores: the outer node (cache 51) evaluates its
+    inner cached option (cache 52: success, stored) and then its step raises.  The run fails;
+    the store it leaves has ONE entry, in cache 52, and that entry is the success of its own
+    site: the witnesses [C12_real_stored_entry_is_its_sites_success] promises, exhibited *)
+Definition c12_inner_expr : expr := EOption [SName 11] None None.
+Definition c12_outer_body : expr :=
+  EApply (ECached (CMem 52) c12_inner_expr) (ECached CNone (pstep 100 [EOption [SName 10] None None])).
+Definition c12_outer : expr := ECached (CMem 51) c12_outer_body.
+Definition c12_bad : dict := [(SName 11, JInt 5); (SName 10, JInt 0)].
+Definition c12_ev := eval store mem_find mem_store cfg0 (ucall_of d20_table) default_fuel (fun _ _ => true).
+Definition c12_fp := fingerprint store mem_find mem_store cfg0 (ucall_of d20_table) default_fuel (fun _ _ => true).
+
+Example C12_failed_run_stores_the_inner_success_only :
+  fst (fst (c12_ev c12_outer c12_bad [])) = Err (CUser 3) true /\
+  snd (fst (c12_ev c12_outer c12_bad [])) = [(52, [([([SName 11], JInt 5)], VJ (JInt 5))])] /\
+  sites_of c12_outer = [(51, c12_outer_body); (52, c12_inner_expr)] /\
+  (exists o' v sb la sc lf,
+     c12_ev c12_inner_expr o' [] = (Ok v, sb, la) /\
+     c12_fp c12_inner_expr o' sb = (Ok [([SName 11], JInt 5)], sc, lf) /\ VJ (JInt 5) = exhaust v) /\
+  (* nothing at the failed node's own cache *)
+  st_get 51 (snd (fst (c12_ev c12_outer c12_bad []))) = [].
+Proof.
+  split; [vm_compute; reflexivity|]. split; [vm_compute; reflexivity|]. split; [vm_compute; reflexivity|].
+  split; [|vm_compute; reflexivity].
+  exists c12_bad, (VJ (JInt 5)), [], [EvRead [SName 11] true], [], [EvRead [SName 11] true].
+  vm_compute. repeat split; reflexivity.
+Qed.
+Print Assumptions C12_failed_run_stores_the_inner_success_only.
+
+(** the outcome theorems: the history of [C12_history] is inside [hist_ok] (by the boolean
+    checker [scohb], sound by Proofs/CoveredProofs.v), it contains five failing evaluations
+    (missing option, raising body, raising step after an inner success) — and deleting all five
+    leaves the three other answers as they were *)
+Definition c12_e1 : expr := ECached (CMem 50) d20_member.
+Definition c12_sites (c : N) : option expr :=
+  if N.eqb c 50 then Some d20_member else if N.eqb c 51 then Some c12_outer_body
+  else if N.eqb c 52 then Some c12_inner_expr else None.
+Definition c12_h : list hop :=
+  [HEval c12_e1 []; HEval c12_e1 d20_options; HEval c12_e1 [(SName 10, JInt 1)]; HEval c12_e1 d20_options;
+   HEval c12_e1 [(SName 10, JInt 1)];
+   HEval c12_outer [(SName 11, JInt 7)]; HEval c12_outer c12_bad;
+   HEval c12_outer [(SName 11, JInt 7); (SName 10, JInt 0)]].
+Definition c12_h_without_failures : list hop :=
+  [HEval c12_e1 [(SName 10, JInt 1)]; HEval c12_e1 [(SName 10, JInt 1)];
+   HEval c12_outer [(SName 11, JInt 7); (SName 10, JInt 0)]].
+
+Example C12_history_hypotheses_satisfiable :
+  hist_ok (ucall_of d20_table) default_fuel c12_sites false c12_h /\
+  Sound (ucall_of d20_table) default_fuel c12_sites false [] /\
+  run_hist (ucall_of d20_table) default_fuel cfg0 (fun _ _ => true) c12_h [] =
+    [OEval (Err (CKey [SName 10]) true); OEval (Err (CUser 3) true); OEval (Ok (VT 100 [VJ (JInt 1)]));
+     OEval (Err (CUser 3) true); OEval (Ok (VT 100 [VJ (JInt 1)]));
+     OEval (Err (CKey [SName 10]) true); OEval (Err (CUser 3) true);
+     OEval (Ok (VT 100 [VJ (JInt 7); VJ (JInt 0)]))] /\
+  run_hist (ucall_of d20_table) default_fuel cfg0 (fun _ _ => true) c12_h_without_failures [] =
+    [OEval (Ok (VT 100 [VJ (JInt 1)])); OEval (Ok (VT 100 [VJ (JInt 1)]));
+     OEval (Ok (VT 100 [VJ (JInt 7); VJ (JInt 0)]))].
+Proof.
+  split; [|split; [apply Sound_empty|split; vm_compute; reflexivity]].
+  apply (covered_hist_ok (ucall_of d20_table) default_fuel c12_sites false [c12_e1; c12_outer] c12_h).
+  - intros c b H. unfold c12_sites in H.
+    destruct (N.eqb c 50) eqn:E1; [apply N.eqb_eq in E1; inversion H; subst; cbn; tauto|].
+    destruct (N.eqb c 51) eqn:E2; [apply N.eqb_eq in E2; inversion H; subst; cbn; tauto|].
+    destruct (N.eqb c 52) eqn:E3; [apply N.eqb_eq in E3; inversion H; subst; cbn; tauto|discriminate].
+  - intros cb Hcb. cbn in Hcb. repeat (destruct Hcb as [<-|Hcb]; [reflexivity|]). destruct Hcb.
+  - intros p Hp. unfold c12_h in Hp.
+    repeat (destruct Hp as [<-|Hp]; [split; [cbn; tauto|vm_compute; reflexivity]|]). destruct Hp.
+Qed.
+Print Assumptions C12_history_hypotheses_satisfiable.
 
 (** the handlers, computed: the default of a switch is used for a dispatch that cannot be
     evaluated, NOT for a branch that fails; a deferred element failure surfaces at the consumer *)
@@ -332,3 +547,4 @@ Example C12_handlers_computed :
               (EIter [EValue (VJ (JInt 0)); d20_member; d20_last]) d20_options tt))
     = Ok (VT T_ITER [VJ (JInt 0); VErr (CUser 3)]).
 Proof. vm_compute. intuition. Qed.
+Print Assumptions C12_handlers_computed.
